@@ -4,7 +4,7 @@ CFG = {
     "lean_exe": "lm_c02",
     "theorems": [
         "Leptos.Reactive.C02_lost_update_witness",
-        "Leptos.Reactive.C02_effects_converge_full_false",
+        "Leptos.Reactive.C02_effects_converge_full_old_false",
     ],
     "harness_pkg": "hx-c01",
     "harness_bin": "c02",
@@ -15,15 +15,17 @@ CFG = {
             "saw the current from-scratch values; glitch oracle at every read inside an effect run; trivial = tag `plain` only",
     "trusted": ["hx_common::sched controlled executor standing in for any executor (tasks polled one at a time on one thread)"],
     "modelled": ["Effect::new task loop", "EffectInner", "channel.rs (set flag + waker)", "signal writes from inside effects"],
-    "assumptions": ["Effect::new only; owner pause/dispose and wake-order clauses are not yet driven (planned)", "single-threaded executor"],
+    "assumptions": ["Effect::new and RenderEffect::new; watch / new_isomorphic / ImmediateEffect share EffectInner but are not separately driven", "single-threaded executor"],
     "manifest": {
         "category": "proof",
-        "text": "The full convergence statement (every effect current at every idle point, all programs/histories/schedules) is REFUTED by a kernel-checked "
-                "witness (C02_lost_update_witness: x=s, m=0*x, effect reads m then x; after s:=2 the effect never re-runs) that replays on the real Effect — "
-                "known finding F-C02-1. The model is tied to reactive_graph by differential correspondence under arbitrary polling orders; a stale or glitching "
-                "effect outside the model's class is a violation. Positive partial theorem pending.",
+        "text": "The convergence statement was FALSE of the code as found (kernel-checked witness C02_lost_update_witness: x=s, m=0*x, effect reads m then x; after "
+                "s:=2 the effect never re-ran; replayed on the real Effect) and the defect was REPAIRED by /repo commit 4084efd (EffectInner::update_if_necessary now walks "
+                "its sources under untrack and folds the dirty flag in). The witness is kept as a regression theorem about the pre-repair model (runOld); the statement for "
+                "the repaired scheduler (C02_effects_converge_stmt) is OPEN: no counterexample in 63 000 generated programs x histories x schedules, proof in progress. "
+                "The executable Lean model (Effect::new, RenderEffect, pause/resume/dispose, wake order, effects writing signals) is tied to reactive_graph by differential "
+                "correspondence under arbitrary polling orders with oracles for staleness at idle, glitches, runs after disposal / while paused and wake order.",
         "design_ref": "DESIGN.md §7 C02",
-        "note": "hand-written model validated by correspondence; convergence theorem for the non-defective class pending",
-        "technique": "Lean 4 refutation witness (decide +kernel) + executable model + differential correspondence over schedules",
+        "note": "hand-written model validated by correspondence; convergence theorem for the repaired code open (proof in progress)",
+        "technique": "Lean 4 regression witness + executable model + differential correspondence over schedules (convergence proof in progress)",
     },
 }
